@@ -54,8 +54,14 @@ def gen_client_ops(rng, n, nhandles, finite, prefix=""):
     for _ in range(n):
         r = rng.random()
         if (r < 0.22 and len(live) < nhandles) or not live and r < 0.5:
-            h = "%s%d" % (prefix, len([o for o in ops if o[0] == "iter"]))
-            ops.append(["iter", h])
+            h = "%s%d" % (prefix, len([o for o in ops
+                                       if o[0] in ("iter", "xiter")]))
+            if rng.random() < 0.2:
+                ops.append(["xiter", h, RL.gen_ref(rng),
+                            rng.choice([None, 1, 2, 5, 12, 25]),
+                            rng.random() < 0.5])
+            else:
+                ops.append(["iter", h])
             live.append(h)
         elif r < 0.62 and live:
             h = rng.choice(live)
